@@ -15,6 +15,7 @@
 package main
 
 import (
+	"context"
 	"encoding/json"
 	"flag"
 	"fmt"
@@ -26,6 +27,7 @@ import (
 	"strings"
 
 	"github.com/sirupsen/logrus"
+	"sigs.k8s.io/knftables"
 
 	intdataplane "github.com/projectcalico/calico/felix/dataplane/linux"
 	"github.com/projectcalico/calico/felix/dataplane/linux/dataplanedefs"
@@ -36,6 +38,7 @@ import (
 	"github.com/projectcalico/calico/felix/nftables"
 	"github.com/projectcalico/calico/felix/proto"
 	"github.com/projectcalico/calico/felix/rules"
+	"github.com/projectcalico/calico/lib/logrusr"
 	"github.com/projectcalico/calico/libcalico-go/lib/set"
 )
 
@@ -73,6 +76,7 @@ func fatal(format string, a ...any) {
 // ---------------------------------------------------------------- recording IP sets dataplane
 
 type recIPSets struct {
+	real     *realLayer
 	fam      ipsets.IPFamily
 	cur      []string // members of the set as last written
 	exists   bool
@@ -87,11 +91,13 @@ func (s *recIPSets) AddOrReplaceIPSet(m ipsets.IPSetMetadata, members []string) 
 	s.setIDs[m.SetID] = true
 	s.cur = append([]string(nil), members...)
 	s.exists, s.changed = true, true
+	s.real.do("AddOrReplaceIPSet", func() { s.real.sets.AddOrReplaceIPSet(m, members) })
 }
 func (s *recIPSets) AddMembers(setID string, newMembers []string) {
 	s.setIDs[setID] = true
 	s.cur = append(s.cur, newMembers...)
 	s.changed = true
+	s.real.do("AddMembers", func() { s.real.sets.AddMembers(setID, newMembers) })
 }
 func (s *recIPSets) RemoveMembers(setID string, removed []string) {
 	s.setIDs[setID] = true
@@ -104,10 +110,12 @@ func (s *recIPSets) RemoveMembers(setID string, removed []string) {
 		}
 	}
 	s.changed = true
+	s.real.do("RemoveMembers", func() { s.real.sets.RemoveMembers(setID, removed) })
 }
 func (s *recIPSets) RemoveIPSet(setID string) {
 	s.setIDs[setID] = true
 	s.cur, s.exists, s.changed = nil, false, true
+	s.real.do("RemoveIPSet", func() { s.real.sets.RemoveIPSet(setID) })
 }
 func (s *recIPSets) GetIPFamily() ipsets.IPFamily { return s.fam }
 func (s *recIPSets) GetTypeOf(setID string) (ipsets.IPSetType, error) {
@@ -126,6 +134,93 @@ func (s *recIPSets) QueueResync()                               {}
 func (s *recIPSets) ApplyUpdates(listener ipsets.UpdateListener) {}
 func (s *recIPSets) ApplyDeletions() bool                       { return false }
 func (s *recIPSets) SetFilter(neededIPSets set.Set[string])     {}
+
+// ---------------------------------------------------------------- the real nftables IP set layer behind the recorder
+
+// realLayer is the REAL felix/nftables.IPSets writing into knftables' in-memory fake.  Every call the manager makes on
+// the recorder is forwarded to it; after each CompleteDeferredWork the driver calls ApplyUpdates (as the dataplane
+// loop does) and lists the elements of the set THE RENDERED RULE NAMES.
+type realLayer struct {
+	sets   *nftables.IPSets
+	fake   *knftables.Fake
+	broken string
+}
+
+func newRealLayer(fam ipsets.IPFamily) *realLayer {
+	kf := knftables.IPv4Family
+	if fam == ipsets.IPFamilyV6 {
+		kf = knftables.IPv6Family
+	}
+	f := knftables.NewFake(kf, "calico")
+	ipc := ipsets.NewIPVersionConfig(fam, rules.IPSetNamePrefix, nil, nil)
+	return &realLayer{sets: nftables.NewIPSets(ipc, f, logrusr.NewSummarizer("verif-c41")), fake: f}
+}
+
+func (l *realLayer) do(what string, fn func()) {
+	if l == nil || l.broken != "" {
+		return
+	}
+	defer func() {
+		if x := recover(); x != nil {
+			l.broken = fmt.Sprintf("%s panicked: %v", what, x)
+		}
+	}()
+	fn()
+}
+
+// programmed returns the elements of the named set in the fake kernel (nil, false if the set does not exist).
+func (l *realLayer) programmed(name string) ([]string, bool) {
+	if l.broken != "" || name == "" {
+		return nil, false
+	}
+	els, err := l.fake.ListElements(context.Background(), "set", name)
+	if err != nil {
+		return nil, false
+	}
+	var out []string
+	for _, e := range els {
+		out = append(out, strings.Join(e.Key, "."))
+	}
+	return out, true
+}
+
+var ruleSetNames = map[int]string{}
+
+// ruleSetName renders the real nftables FORWARD chain with offload on and returns the set the offload rule's source match names.
+func ruleSetName(ver int) string {
+	if n, ok := ruleSetNames[ver]; ok {
+		return n
+	}
+	name := ""
+	func() {
+		defer func() { _ = recover() }()
+		rr := rules.NewRenderer(rules.Config{
+			IPSetConfigV4: ipsets.NewIPVersionConfig(ipsets.IPFamilyV4, rules.IPSetNamePrefix, nil, nil),
+			IPSetConfigV6: ipsets.NewIPVersionConfig(ipsets.IPFamilyV6, rules.IPSetNamePrefix, nil, nil),
+			MarkAccept:    0x8, MarkPass: 0x10, MarkScratch0: 0x20, MarkScratch1: 0x40, MarkDrop: 0x80,
+			MarkEndpoint: 0xff00, MarkNonCaliEndpoint: 0x0100,
+			FilterDenyAction: "DROP", VXLANPort: 4789, VXLANVNI: 4096,
+			WorkloadIfacePrefixes:    []string{"cali"},
+			NFTablesFlowTableOffload: true,
+		}, true)
+		feat := &environment.Features{}
+		for _, ch := range rr.StaticFilterTableChains(uint8(ver)) {
+			for i := range ch.Rules {
+				if _, ok := ch.Rules[i].Action.(nftables.FlowOffloadAction); !ok {
+					continue
+				}
+				t := strings.Fields(nftables.NewNFTRenderer("", uint8(ver)).Render(ch.Name, "", ch.Rules[i], feat).Rule)
+				for k := 0; k+2 < len(t); k++ {
+					if t[k] == "saddr" && t[k+1] == "!=" && strings.HasPrefix(t[k+2], "@") {
+						name = t[k+2][1:]
+					}
+				}
+			}
+		}
+	}()
+	ruleSetNames[ver] = name
+	return name
+}
 
 // ---------------------------------------------------------------- universes
 
@@ -798,7 +893,8 @@ func main() {
 		if ver == 6 {
 			fam = ipsets.IPFamilyV6
 		}
-		rec := &recIPSets{fam: fam, setIDs: map[string]bool{}}
+		rec := &recIPSets{fam: fam, setIDs: map[string]bool{}, real: newRealLayer(fam)}
+		var progs []string
 		mgr := intdataplane.VerifC41NewExclusionManager(rec, uint8(ver), 1048576)
 		var outs, sampleOps []string
 		badMembers := map[string]int{}
@@ -859,6 +955,23 @@ func main() {
 				} else {
 					outs = append(outs, "None")
 					sawNone = true
+				}
+				// the dataplane loop now applies the IP set updates; read back what the rule's set holds
+				rec.real.do("ApplyUpdates", func() { rec.real.sets.ApplyUpdates(nil) })
+				if els, ok := rec.real.programmed(ruleSetName(ver)); ok {
+					nums := make([]*big.Int, 0, len(els))
+					for _, m := range els {
+						b, _ := new(big.Int).SetString(memberNum(m), 10)
+						nums = append(nums, b)
+					}
+					sort.Slice(nums, func(a, b int) bool { return nums[a].Cmp(nums[b]) < 0 })
+					p := make([]string, len(nums))
+					for k, b := range nums {
+						p[k] = b.String()
+					}
+					progs = append(progs, "Some ["+strings.Join(p, "; ")+"]")
+				} else {
+					progs = append(progs, "None")
 				}
 				// shared address among endpoints that need the hooks?
 				cnt := map[string]int{}
@@ -978,8 +1091,12 @@ func main() {
 		for k, o := range ops {
 			opc[k] = o.coq()
 		}
-		coq := fmt.Sprintf("{| c_ver := V%d; c_ops := [%s]; c_outs := [%s]; c_nft := %s; c_offload := %s; c_rules := [%s]; c_limits := [%s] |}",
-			ver, strings.Join(opc, "; "), strings.Join(outs, "; "), bcoq(nft), bcoq(offload), strings.Join(rcoq, "; "), strings.Join(limits, "; "))
+		coq := fmt.Sprintf("{| c_ver := V%d; c_ops := [%s]; c_outs := [%s]; c_nft := %s; c_offload := %s; c_rules := [%s]; c_limits := [%s]; c_prog := [%s] |}",
+			ver, strings.Join(opc, "; "), strings.Join(outs, "; "), bcoq(nft), bcoq(offload), strings.Join(rcoq, "; "), strings.Join(limits, "; "), strings.Join(progs, "; "))
+		if rec.real.broken != "" {
+			tags = append(tags, "ipset-layer-broken")
+			stats["ipset-layer-broken"]++
+		}
 		for _, f := range []struct {
 			on  bool
 			tag string
@@ -1004,7 +1121,7 @@ func main() {
 		stats["cases"]++
 		key := fmt.Sprintf("v%d|%s|%v|%v", ver, strings.Join(opc, ";"), nft, offload)
 		l := line{Coq: coq, NT: nt, Key: key, Tags: utags,
-			Sample: map[string]any{"ip_version": ver, "ops": sampleOps, "ipset_calls_per_flush": outs, "offload_rules": rtext}}
+			Sample: map[string]any{"ip_version": ver, "ops": sampleOps, "ipset_calls_per_flush": outs, "programmed_set_per_flush": progs, "rule_set_name": ruleSetName(ver), "offload_rules": rtext}}
 		if err := enc.Encode(l); err != nil {
 			fatal("%v", err)
 		}
